@@ -252,7 +252,7 @@ def known_matcher(what, case):
 def run(ctx):
     ctx.rule = ('initial states of every shipped parameter set and 18 small ones (complete outcome tree of the real reset function when it has at most '
                 '400 (thorough 5000) leaves, else seeds); best-first search over the real step function: all actions x all random outcomes, never through '
-                'a terminating state; win = plan found, lost = search space exhausted; non-trivial = distinct initial state decided')
+                'a terminating state, every step made on a pickle copy of the python state that was REACHED (object-carried staleness travels along); also river types other than Wall under fatal-obstacle rules and the shipped layouts under no-bumping rules; win = plan found, lost = search space exhausted; non-trivial = distinct initial state decided')
     table = pairing()
     corpus_known(ctx, table)
     max_tree = 400 if ctx.tier == 'quick' else 5000
